@@ -234,6 +234,9 @@ fn paths_where(t: &GTree, pred: &dyn Fn(&GTree) -> bool) -> Vec<Vec<usize>> {
     t.paths().into_iter().filter(|p| pred(t.at(p).unwrap())).collect()
 }
 
+/// The xmlns namespace name is registered right after the standard vocabulary in `mutated_case`.
+const XMLNS_NS: usize = 8;
+
 /// One mutation that takes a generated tree out of the round-trip domain; `None` if the tree
 /// offers no place for it.
 fn mutate(rng: &mut Rng, t: &mut GTree, fragment: bool) -> Option<&'static str> {
@@ -246,7 +249,7 @@ fn mutate(rng: &mut Rng, t: &mut GTree, fragment: bool) -> Option<&'static str> 
     if holders.is_empty() {
         return None;
     }
-    match rng.below(9) {
+    match rng.below(12) {
         0 => {
             // an empty text node
             let texts = paths_where(t, &|n| matches!(n.v, GValue::Text(_)));
@@ -341,6 +344,36 @@ fn mutate(rng: &mut Rng, t: &mut GTree, fragment: bool) -> Option<&'static str> 
             }
             Some("document-top-level")
         }
+        8 => {
+            // a CR in a comment is written as it is and read back as LF (XML 1.0 section 2.11)
+            let p = rng.pick(&holders).clone();
+            let c = rng.pick(&["a\rb", "\r", "a\r\nb", "\r\n", "x\r"]).to_string();
+            at_mut(t, &p).kids.push(GTree::leaf(GValue::Comment(c)));
+            Some("comment-cr")
+        }
+        9 => {
+            // the same in PI data
+            let p = rng.pick(&holders).clone();
+            let d = rng.pick(&["a\rb", "d\r", "a\r\nb", "x\r\n", "x\r\r"]).to_string();
+            at_mut(t, &p).kids.push(GTree::leaf(GValue::PI(17, Some(d))));
+            Some("pi-data-cr")
+        }
+        10 => {
+            // a declaration the parser rejects (InvalidNamespaceDeclaration): a prefix bound to the
+            // xmlns namespace name (namespace 8, registered by `mutated_case`) or to the empty name
+            let els = paths_where(t, &is_el);
+            if els.is_empty() {
+                return None;
+            }
+            let p = rng.pick(&els).clone();
+            let (prefix, ns, kind) = *rng.pick(&[(5usize, XMLNS_NS, "xmlns-namespace-declared"), (0, XMLNS_NS, "xmlns-namespace-declared"), (5, 0, "prefix-bound-to-empty-uri"), (6, 0, "prefix-bound-to-empty-uri")]);
+            let e = at_mut(t, &p);
+            if e.kids.iter().any(|k| matches!(k.v, GValue::Namespace(q, _) if q == prefix)) {
+                return None;
+            }
+            e.kids.insert(0, GTree::leaf(GValue::Namespace(prefix, ns)));
+            Some(kind)
+        }
         _ => {
             // an attribute or a child of a leaf kind: not buildable / not a sound tree
             let cs = paths_where(t, &|n| matches!(n.v, GValue::Comment(_)));
@@ -359,6 +392,8 @@ fn mutate(rng: &mut Rng, t: &mut GTree, fragment: bool) -> Option<&'static str> 
 fn mutated_case(rng: &mut Rng, sink: &mut Sink) {
     let mut xot = Xot::new();
     let mut vocab = Vocab::standard(&mut xot);
+    assert_eq!(vocab.add_ns(&mut xot, "http://www.w3.org/2000/xmlns/"), XMLNS_NS);
+    let built_with = vocab.wire();
     let mut cfg = GenCfg::default_cfg();
     cfg.max_depth = 2 + rng.below(2);
     let fragment = rng.chance(1, 3);
@@ -404,7 +439,7 @@ fn mutated_case(rng: &mut Rng, sink: &mut Sink) {
     };
     sink.stat(&format!("rt.mutated.{}.{}", kind, if same { "round-trips" } else { "lost" }));
     // the vocabulary as it was when the tree was built (the reparse may have interned more)
-    sink.emit(Vocab::standard(&mut Xot::new()).wire(), "ok".to_string());
+    sink.emit(built_with, "ok".to_string());
     sink.emit(format!("representable {} {}", if fragment { 1 } else { 0 }, original.wire()), if same { "true" } else { "false" }.to_string());
 }
 
